@@ -188,7 +188,21 @@ def r2(prog, run):
 def r3(prog, run):
     rid = run.rule('C19.R3', 'an incoming job reports success only from checkData(), and only if the announced size and hash match what was received', floor=3)
     cd = prog.fn(IJ + '::checkData')
-    ok_calls = [i for i, n in cd.calls() if cd.cname(n).endswith('::terminate') and cd.const_value(n['args'][0]) == ('enum', 'QXmppTransferJob::NoError')]
+    NOERR = ('enum', 'QXmppTransferJob::NoError')
+
+    def success_arm(f, arg):
+        """None: the argument is never NoError; 'always': it is NoError; (cond, polarity): `cond ? NoError : x` / `cond ? x : NoError`"""
+        a = f.resolve(arg)
+        if f.const_value(a) == NOERR:
+            return 'always'
+        m = f.nodes[f.skip(a)]
+        if m['k'] == 'cond':
+            if f.const_value(f.resolve(m['a'])) == NOERR:
+                return (m['c'], True)
+            if f.const_value(f.resolve(m['b'])) == NOERR:
+                return (m['c'], False)
+        return None
+    ok_calls = [i for i, n in cd.calls() if cd.cname(n).endswith('::terminate') and n.get('args') and success_arm(cd, n['args'][0]) is not None]
     if not ok_calls:
         raise AnalysisBroken('C19.R3: terminate(NoError) not found in checkData')
 
@@ -218,15 +232,27 @@ def r3(prog, run):
         return evc
     for kind, label in (('size', 'a size was announced and the received byte count differs'), ('hash', 'a hash was announced and the computed hash differs')):
         run.instance(rid)
-        res = cfgx.sink_reachability(cd, case(kind), ok_calls)
-        if any(res[x] is not None for x in ok_calls):
-            run.violation(rid, 'checkData#%s-mismatch-accepted' % kind, cd.loc(ok_calls[0]), 'success is reported although %s' % label, cfgx.describe_path(cd, res[ok_calls[0]]))
+        evc = case(kind)
+        res = cfgx.sink_reachability(cd, evc, ok_calls)
+
+        def reports_success(x):
+            if res[x] is None:
+                return False
+            arm = success_arm(cd, cd.nodes[x]['args'][0])
+            if arm == 'always':
+                return True
+            # terminate(corrupt ? FileCorruptError : NoError): success only if the condition can select the NoError arm in this case
+            v = evc(cd, arm[0], None)
+            return not (isinstance(v, bool) and v != arm[1])
+        bad = [x for x in ok_calls if reports_success(x)]
+        if bad:
+            run.violation(rid, 'checkData#%s-mismatch-accepted' % kind, cd.loc(bad[0]), 'success is reported although %s' % label, cfgx.describe_path(cd, res[bad[0]]))
         else:
             run.ok(rid, cd.loc(), '%s => not NoError' % label)
     # who else reports success on an incoming job
     for f in prog.fns.values():
         for i, n in f.calls():
-            if not f.cname(n).endswith('::terminate') or not n.get('args') or f.const_value(n['args'][0]) != ('enum', 'QXmppTransferJob::NoError'):
+            if not f.cname(n).endswith('::terminate') or not n.get('args') or success_arm(f, n['args'][0]) is None:
                 continue
             o = n.get('obj')
             ot = (f.nodes[f.resolve(o)].get('t') or '') if o is not None else ''
